@@ -84,6 +84,7 @@ def doc_tables(doc):
 
 
 _VIEW = {}
+PYCLASSES = ("OrderBook", "StepEnv", "StepEnvNumpy")
 
 
 def builder_view(m, f):
@@ -93,8 +94,9 @@ def builder_view(m, f):
     from analysis.query import FnQ
     if "inl" not in _VIEW or _VIEW.get("prog") is not m.prog:
         def policy(caller, callee):
+            # free functions, private methods, and methods of helper types that are not Python classes
             return callee is not None and callee.crate.name == caller.crate.name == "bourse" and callee.impl_trait is None and \
-                (callee.kind == "Fn" or (callee.kind == "AssocFn" and not callee.pub))
+                (callee.kind == "Fn" or (callee.kind == "AssocFn" and (not callee.pub or (callee.impl_adt or "").split("::")[-1].split("<")[0] not in PYCLASSES)))
         _VIEW["inl"] = Inliner(m.prog, policy)
         _VIEW["prog"] = m.prog
         _VIEW["q"] = {}
@@ -107,6 +109,50 @@ def builder_view(m, f):
 APPENDERS = ("push", "extend", "extend_from_slice")
 MUTATORS = ("resize", "resize_with", "truncate", "insert", "remove", "append", "swap", "clear", "drain", "retain", "fill", "reverse", "sort", "pop", "set_len",
             "split_off", "dedup", "rotate_left", "rotate_right", "swap_remove")
+
+
+def iterator_sequence(m, q, e):
+    """(prefix elems, per-level elems, level range) of an iterator expression built from an array literal chained with a
+    per-level `map` / `flat_map` over the level arrays; None if not of that form"""
+    from analysis.iterelem import sym_item, rewrite_with
+    from analysis.beta import closure_fn
+    if e[0] != "call" or not e[2]:
+        return None
+    n, a = e[4], e[2]
+    if n in ("into_iter", "iter", "copied", "cloned") and len(a) == 1:
+        x = a[0]
+        if x[0] == "agg" and x[1] == "array":
+            return list(x[3]), [], None
+        return iterator_sequence(m, q, x)
+    if n == "chain" and len(a) == 2:
+        l, r = iterator_sequence(m, q, a[0]), iterator_sequence(m, q, a[1])
+        if l is None or r is None or l[1]:
+            return None      # (nothing may follow the per-level block)
+        return l[0] + r[0], r[1], r[2]
+    if n in ("flat_map", "map") and len(a) == 2 and a[1][0] == "agg" and a[1][1] == "closure":
+        bounds = []
+        sy = sym_item(a[0], bounds)
+        cf = closure_fn(m.w, a[1])
+        if sy is None or cf is None:
+            return None
+        body = m.w.q(cf).ret()
+        body = rewrite_with(body, lambda y: y[0] == "param" and y[1] == 2, sy)
+        if n == "flat_map":
+            if not (body[0] == "agg" and body[1] == "array"):
+                return None
+            els = list(body[3])
+        else:
+            els = [body]
+        takes = [b for b in bounds if b[0] == "take"]
+        colls = [b for b in bounds if b[0] == "coll"]
+        rngs = [b for b in bounds if b[0] == "range"]
+        rng = None
+        if colls and all("price_levels" in ".".join(field_chain(b[1])[1]) for b in colls) and not rngs:
+            rng = (0, takes[0][1][3]) if takes and takes[0][1][0] == "const" else ((0, 10) if not takes else None)
+        elif rngs and not colls and not takes and rngs[0][1][0] == "const" and rngs[0][2][0] == "const":
+            rng = (rngs[0][1][3], rngs[0][2][3])
+        return [], els, rng
+    return None
 
 
 def array_elements(m, f):
@@ -131,6 +177,10 @@ def array_elements(m, f):
             if x[0] == "agg" and x[1] == "array":
                 return list(x[3])
         return None
+    if recv[0] == "call" and recv[4] == "collect" and recv[2]:
+        r = iterator_sequence(m, q, recv[2][0])
+        if r is not None:
+            return r[0], r[1], r[2], []
     if recv[0] != "local":
         els = lit_elems(recv)
         return els, [], None, ([] if els is not None else ["array value %s not understood" % render(recv)[:80]])
@@ -145,6 +195,12 @@ def array_elements(m, f):
             return list(e[3]), [], None, []
         if e[0] == "call" and e[4] in ("new", "with_capacity") and "Vec" in e[1]:
             prefix = []
+        elif e[0] == "call" and e[4] == "collect":
+            # pure iterator construction: `literal.into_iter().chain(levels.flat_map(|(b, a)| [..])).collect()`
+            r = iterator_sequence(m, q, e[2][0])
+            if r is not None:
+                return r[0], r[1], r[2], []
+            prefix = None
         else:
             prefix = lit_elems(e)
     if prefix is None:
@@ -321,6 +377,20 @@ def run(ctx):
         exts = [c for c in q.calls("extend") if len(c.args) == 2]
         for c in exts:
             E = from_fn_element(m.w, c.args[1], ("var", "i"))
+            if E is None:
+                # `levels.iter().enumerate().map(|(i, h)| (key(i), h..)).collect()`
+                x = c.args[1]
+                while x[0] == "call" and x[4] in ("collect", "into_iter", "to_vec") and x[2]:
+                    x = x[2][0]
+                if x[0] == "call" and x[4] == "map" and len(x[2]) == 2 and x[2][1][0] == "agg" and x[2][1][1] == "closure":
+                    from analysis.iterelem import sym_item, rewrite_with
+                    from analysis.beta import apply_closure
+                    bnds = []
+                    sy = sym_item(x[2][0], bnds)
+                    if sy is not None and not [b_ for b_ in bnds if b_[0] == "take"]:
+                        body = apply_closure(m.w, x[2][1], [("param", 2, "_item")])
+                        if body is not None:
+                            E = rewrite_with(body, lambda y: y[0] == "param" and y[1] == 2, sy)
             if E is None or not (E[0] == "agg" and E[1] == "tuple" and len(E[3]) == 2):
                 templ["?%s" % render(c.args[1])[:40]] = (("unk",), None)
                 continue
